@@ -31,6 +31,8 @@ logger = logging.getLogger(__name__)
 
 import msgpack
 
+from decimal import Decimal as D
+
 from spyne import ValidationError
 from spyne.util import six
 from spyne.model.fault import Fault
@@ -48,7 +50,7 @@ class MessagePackDecodeError(Fault):
                                 .__init__(self.CODE, data)
 
 
-NON_NUMBER_TYPES = tuple({list, dict, six.text_type, six.binary_type})
+NUMBER_TYPES = six.integer_types + (float, D)
 
 
 class MessagePackDocument(HierDictDocument):
@@ -123,10 +125,15 @@ class MessagePackDocument(HierDictDocument):
     def _ret(self, _, value):
         return value
 
-    def _ret_number(self, _, value):
-        if isinstance(value, NON_NUMBER_TYPES):
-            raise ValidationError(value)
+    def _ret_number(self, cls, value):
         if isinstance(value, bool):
+            return int(value)
+        if not isinstance(value, NUMBER_TYPES):
+            raise ValidationError(value)
+        if isinstance(value, float) and issubclass(cls, Integer):
+            # is_integer() is False for nan and the infinities as well
+            if not value.is_integer():
+                raise ValidationError(value)
             return int(value)
         return value
 
